@@ -169,9 +169,13 @@ func (self *Interpreter) functionLiteral(node ast.AnalyzedFunctionLiteralExpress
 	// TODO: test if closures work correctly
 	// TODO: evaluate whether a deep copy is required
 
+	// The closure keeps the scopes which exist now (sharing their variables), not the scope stack itself:
+	// scopes pushed later would overwrite the captured ones in the shared backing array.
+	capturedScopes := append([]map[string]*value.Value{}, self.currentModule.scopes...)
+
 	return value.NewValueClosure(
 		node.Body,
-		self.currentModule.scopes,
+		capturedScopes,
 	), nil
 }
 
